@@ -403,6 +403,8 @@ theorem handInv_step (v : Val) (c : Config) (t : Tid) (I : HandInv v c) : HandIn
         | nil => simp only []; exact ⟨i1, i2, i3, i4, i5, i6, i7, i8, i9, i10, i11, i12⟩
         | cons m rest =>
           obtain ⟨mv, ms⟩ := m
+          have hm := i10 (mv, ms) (by rw [hc]; exact List.mem_cons_self)
+          have hrest : ∀ m ∈ rest, m ∈ c.chan 0 := fun m h => by rw [hc]; exact List.mem_cons_of_mem _ h
           simp only [advance]
           constructor <;>
             (try simp only [upd, BUF, CH, List.mem_append, List.mem_cons]) <;> grind
